@@ -28,4 +28,6 @@ def run(ctx):
     T.clause_engine_commit_clear(R, F)
     import enginerules as ER
     ER.clause_block_info_reset(R, F, owners=("clear_caches",))
+    # commit persists, per key, exactly the latest value the cache served (so that dropping the cache changes no answer)
+    T.clause_commit_per_key(R, F)
     return R
